@@ -124,7 +124,10 @@ def run_config(ck, pid, kind, floor_obl, floor_fn, config):
     sfx = "" if config == "default" else ":" + config
     note = "" if config == "default" else " [no-slack configuration]"
     worker.roles = capcheck.all_roles(prog)
-    reach = [(re.compile(rx), why) for rx, why in json.load(open(os.path.join(VERIF, "tables", "cap_reach.json")))["reach"]]
+    table = json.load(open(os.path.join(VERIF, "tables", "cap_reach.json")))
+    reach = [(re.compile(rx), why) for rx, why in table["reach"]]
+    reach_counts = table.get("counts", {})       # "<function>|<W/R>" -> number of undischarged accesses recorded on the pinned tree
+    reach_seen = {}
     keys = [(f.mod["tu"], f.name) for f in prog.allfuncs]
     res, err = par.pmap(prog, worker, keys)
     for k, e in err.items():
@@ -153,6 +156,7 @@ def run_config(ck, pid, kind, floor_obl, floor_fn, config):
             if why is not None:
                 nreach += 1
                 reach_fns.setdefault(base, why)
+                reach_seen.setdefault("%s|%s" % (k[1], kind), []).append(x)
                 continue
             what = x["what"].replace(" ", "-")
             key = "%s:%s:%s:%s:%s#%d" % (pid, base, "write" if kind == "W" else "read", what, x["role"], x["ordinal"])
@@ -170,8 +174,24 @@ def run_config(ck, pid, kind, floor_obl, floor_fn, config):
         per[base] = dict(obligations=len(r), discharged=sum(1 for x in r if x["lo"] and x["hi"]))
         if ok_all:
             full += 1
+    # the reach table says "not analysed", not "anything goes": more undischarged accesses than were recorded for a function means its code changed
+    # in a way the domain cannot bound -- reported like any other undischarged obligation
+    if config == "default":
+        for fk, xs in sorted(reach_seen.items()):
+            want = reach_counts.get(fk)
+            if want is None:
+                ck.fail_broken("tables/cap_reach.json has no recorded count for %s (%d undischarged accesses match a reach rule)" % (fk, len(xs)))
+            elif len(xs) > want:
+                x = xs[-1]
+                fname = fk.split("|")[0]
+                ck.report("%s:outside-reach-grew:%s:%s" % (pid, api.base_name(fname), "write" if kind == "W" else "read"), "B-%s-in-bounds" % ("write" if kind == "W" else "read"),
+                          "%s:%s" % (res[next(k for k in res if k[1] == fname)]["file"], x["line"]),
+                          "%s: %d accesses of this function cannot be bounded by the analysis where %d were recorded for the pinned tree (functions listed in tables/cap_reach.json): "
+                          "a new or changed %s, e.g. %s through %s at offset %s, size %s against capacity %s" % (api.base_name(fname), len(xs), want, "write" if kind == "W" else "read", x["what"], x["role"], x["off"], x["size"], x["cap"]),
+                          dict(obligations=[dict(what=y["what"], role=y["role"], off=y["off"], size=y["size"], cap=y["cap"], line=y["line"]) for y in xs]))
+    st_reach_counts = {fk: len(xs) for fk, xs in reach_seen.items()}
     if tot < floor_obl:
         ck.fail_broken("only %d %s obligations generated (< %d)" % (tot, kind, floor_obl))
     if full < floor_fn:
         ck.fail_broken("only %d functions fully discharged (< %d confirmed on the pinned tree)" % (full, floor_fn))
-    return prog, info, dict(total=tot, discharged=dis, outside_reach=nreach, functions=len(per), fully_discharged_functions=full, outside_reach_functions=reach_fns)
+    return prog, info, dict(total=tot, discharged=dis, outside_reach=nreach, functions=len(per), fully_discharged_functions=full, outside_reach_functions=reach_fns, outside_reach_counts=st_reach_counts)
